@@ -167,13 +167,18 @@ def expectFwd (s : SpecSt) (k : String) (p i : Nat) (allowUp : Bool) : Option (N
     | some t => some (t.upPeer, t.upId)
     | none => none
 
+/-- Failures in a case in which two live tunnels shared a bare stream id carry the signature of the
+    known finding (`c16-collision-…`); the same failure without any collision is a plain violation. -/
+def tag (s : SpecSt) (what : String) : String :=
+  if s.collided then "c16-collision-" ++ what else "c16-" ++ what
+
 def checkFwd (s : SpecSt) (k what : String) (exp : Option (Nat × Nat)) (sent : List (Nat × String × Nat)) : Option String :=
   match exp with
   | some (q, j) =>
-    if !s.peers.contains q then (if sent.isEmpty then none else some "c16-misrouted")
+    if !s.peers.contains q then (if sent.isEmpty then none else some (tag s "misrouted"))
     else if sent == [(q, k ++ "." ++ what, j)] then none
-    else if sent.isEmpty then some "c16-dropped" else some "c16-misrouted"
-  | none => if sent.isEmpty then none else some "c16-phantom"
+    else if sent.isEmpty then some (tag s "dropped") else some (tag s "misrouted")
+  | none => if sent.isEmpty then none else some (tag s "phantom")
 
 def removeLeg (s : SpecSt) (k : String) (p i : Nat) (allowUp : Bool) : SpecSt :=
   match s.live.find? (fun t => (allowUp && legUp k p i t)) with
@@ -205,17 +210,17 @@ def specStep (s : SpecSt) (l : String) : SpecSt × String :=
       let (p, i, n) := (p.toNat!, i.toNat!, n.toNat!)
       if !s.peers.contains n then
         -- no route: an error goes back, nothing is recorded
-        (s, if sent.all (fun x => x.1 == p) then "ok" else "fail c16-misrouted")
+        (s, if sent.all (fun x => x.1 == p) then "ok" else "fail " ++ tag s "misrouted")
       else
         match sent with
         | [(q, w, j)] =>
           if q == n && w == k ++ ".open" then
             let t : Tun := ⟨k, p, i, n, j⟩
-            -- a re-used (peer,id) replaces the old tunnel of that leg (protocol-level reuse)
+            -- a re-used (peer,id) replaces the old tunnel of that leg; it is a bare-id collision too
             let live := s.live.filter (fun u => !(legUp k p i u))
-            ({ s with live := t :: live, collided := s.collided || clash k live t }, "ok")
-          else (s, "fail c16-misrouted")
-        | _ => (s, "fail c16-dropped")
+            ({ s with live := t :: live, collided := s.collided || clash k s.live t }, "ok")
+          else (s, "fail " ++ tag s "misrouted")
+        | _ => (s, "fail " ++ tag s "dropped")
     | ["ack", k, p, i] =>
       let (p, i) := (p.toNat!, i.toNat!)
       match checkFwd s k "ack" (expectFwd s k p i false) sent with
